@@ -96,6 +96,10 @@ class RepoWorld:
         if spec['inflight']:
             ops.append(('backup-inflight',))
             ops.append(('backup-inflight', 'Q'))
+            # the wall clock moves on by a second at every reading while
+            # the backup runs
+            ops.append(('backup-ticking',))
+            ops.append(('backup-ticking', 'F'))
         return ops
 
     def committed_prefix(self):
@@ -128,7 +132,7 @@ class RepoWorld:
                            self.spec)
         if k == 'pack':
             return w.apply(('pack',), self.spec)
-        if k in ('backup', 'backup-inflight'):
+        if k in ('backup', 'backup-inflight', 'backup-ticking'):
             flags = op[1:]
             w.tick()
             t = None
@@ -144,7 +148,12 @@ class RepoWorld:
             before = set(os.listdir(self.repo))
             argv = ['-B', '-r', self.repo, '-f', self.path] + \
                 ['-' + f for f in flags]
-            r = run_main(argv)
+            if k == 'backup-ticking':
+                env.CLOCK.auto = 1.0
+            try:
+                r = run_main(argv)
+            finally:
+                env.CLOCK.auto = 0.0
             if t is not None:
                 w.storage.tpc_abort(t)
             made = sorted(set(os.listdir(self.repo)) - before)
@@ -156,9 +165,16 @@ class RepoWorld:
             data_files = [f for f in made if f.endswith(
                 ('.fs', '.fsz', '.deltafs', '.deltafsz'))]
             full = any(f.endswith(('.fs', '.fsz')) for f in data_files)
-            self.backups.append((env.CLOCK.now, snap, flags, bool(made)))
+            # the moment of the backup is the one in its file name (the
+            # clock may have moved on while it ran)
+            when = env.CLOCK.now
+            if data_files:
+                import calendar
+                when = calendar.timegm(_time.strptime(
+                    data_files[0].split('.')[0], '%Y-%m-%d-%H-%M-%S'))
+            self.backups.append((when, snap, flags, bool(made)))
             if 'k' in flags and full:
-                self.kill_time = env.CLOCK.now
+                self.kill_time = when
             return 'backup-%s' % ('none' if not data_files else
                                   'full' if full else 'incremental')
         raise ValueError(op)
@@ -214,6 +230,11 @@ class RepoWorld:
                         'longer' if len(got) > len(want) else 'content'),
                         dict(argv=argv, expected=len(want), got=len(got)))
                     continue
+                # every backup saves the index next to its data file, so a
+                # recovery comes with an index
+                if not os.path.exists(out + '.index'):
+                    self.bad('index', 'not-restored:%s' % tag,
+                             dict(argv=argv))
                 # usable with the restored index: same answers as without
                 if not verify:
                     n += 1
@@ -375,7 +396,9 @@ def run(rep, tier, seed, workers):
     rep.rule = (
         'all histories up to the depth over {commit, pack, backup with flag '
         'sets (none, F, Q, z, k, Fz; all 10 in the thorough tier), backup '
-        'while a transaction is between vote and finish (plain and quick)} '
+        'while a transaction is between vote and finish (plain and quick), '
+        'backup during which the clock moves on one second at every '
+        'reading (plain and full)} '
         'through repozo.main with a virtual clock, from the initial state '
         'and (plain and quick backups only) from a state whose newest '
         'increment is empty; after every history: '
